@@ -274,7 +274,10 @@ def build_fn(repo, f):
                 raise WeaveError('anchor lost: not a for loop header: %s' % l.strip())
             out_lines[k] = '%s%s: %s\n%s\n{' % (mm.group(1), extra, mm.group(2).strip(), ins['text'])
         elif kind == 'closure':
-            out_lines[k] = annotate_closure(l, ins['text'])
+            ctext = ins['text']
+            for k_, v_ in captured.items():  # ${name} = named groups of regex anchors (a renamed closure parameter keeps the anchor)
+                ctext = ctext.replace('${%s}' % k_, v_)
+            out_lines[k] = annotate_closure(l, ctext)
         elif kind == 'before':
             out_lines[k] = ins['text'] + '\n' + l
         elif kind == 'after':
